@@ -18,13 +18,18 @@ META = {
              "buffered, root check, one write_all) inside the Translator model it is proved for ALL histories of translate calls "
              "and ALL documents (accepted or refused, in any order) that the bytes written are nothing or exactly the "
              "serialization of one complete accepted document, that every document after the first is refused and writes "
-             "nothing (in the same input or a later one), and that a refused document writes nothing. The model is diffed "
-             "against the real Translator on generated histories with refused documents. The oracle plants nulls, oversized "
+             "nothing (in the same input or a later one), and that a refused document writes nothing. WHICH documents are refused is "
+             "a second model (TomlAcceptModel: toml::Value's Deserialize in document order, then xt's root check) with the theorems "
+             "the property names: a document is written iff its root is a table and it is clean (C08_accepted_iff_clean_table); a null "
+             "anywhere, an integer beyond i64 anywhere, a byte array as a value anywhere, a key no table can have, a root that is not a "
+             "table are each refused whatever else the document holds. Both models are diffed "
+             "against the real Translator: generated histories with refused documents, and generated MessagePack documents with "
+             "planted offences whose refusal class (the first offence in document order) must agree. The oracle plants nulls, oversized "
              "integers, non-string keys and binary at every position of generated trees, tries every root type, and reads "
              "accepted output back with Python's tomllib.",
-    "level_note": "Trusted: Coq kernel; hand-written model validated by correspondence; which documents toml::Value refuses and "
-                  "that its pretty printer emits valid TOML that reads back as the value are properties of the third-party toml "
-                  "crate: stated contracts, exercised by the oracle. No axioms.",
+    "level_note": "Trusted: Coq kernel; hand-written models validated by correspondence (toml's private date-time marker key is not "
+                  "modelled and never generated); that the toml crate's pretty printer emits valid TOML that reads back as the value is "
+                  "third-party behaviour exercised by the oracle. No axioms.",
     "trusted_base": [
         "Coq 8.16.1 kernel (coqc, full .vo build); no axioms",
         "hand-written Gallina model coq/theories/FormatsModel.v (emit/run_docs for Toml), tied to the code by the history "
@@ -256,12 +261,106 @@ def run_cli_oracle(outcome):
         fx.close()
 
 
+def _mp_enc(v):
+    """MessagePack for the little trees of accept_correspondence: ("nil",), ("b", bool), ("u", n), ("i", z), ("f32", bits), ("f64", bits),
+    ("s", bytes), ("bin", bytes), ("arr", [..]), ("map", [(k, v), ..]) - keys are trees too and may repeat."""
+    t = v[0]
+    if t == "nil":
+        return b"\xc0"
+    if t == "b":
+        return b"\xc3" if v[1] else b"\xc2"
+    if t == "u":
+        n = v[1]
+        return bytes([n]) if n < 128 else (b"\xcc" + n.to_bytes(1, "big") if n < 256 else b"\xcd" + n.to_bytes(2, "big") if n < 65536 else
+                                           b"\xce" + n.to_bytes(4, "big") if n < (1 << 32) else b"\xcf" + n.to_bytes(8, "big"))
+    if t == "i":
+        z = v[1]
+        return (z & 0xFF).to_bytes(1, "big") if -32 <= z < 0 else b"\xd3" + (z & ((1 << 64) - 1)).to_bytes(8, "big")
+    if t == "f32":
+        return b"\xca" + v[1].to_bytes(4, "big")
+    if t == "f64":
+        return b"\xcb" + v[1].to_bytes(8, "big")
+    if t == "s":
+        return (bytes([0xA0 + len(v[1])]) if len(v[1]) < 32 else b"\xd9" + bytes([len(v[1])])) + v[1]
+    if t == "bin":
+        return b"\xc4" + bytes([len(v[1])]) + v[1]
+    if t == "arr":
+        return (bytes([0x90 + len(v[1])]) if len(v[1]) < 16 else b"\xdc" + len(v[1]).to_bytes(2, "big")) + b"".join(_mp_enc(x) for x in v[1])
+    if t == "map":
+        return (bytes([0x80 + len(v[1])]) if len(v[1]) < 16 else b"\xde" + len(v[1]).to_bytes(2, "big")) + b"".join(_mp_enc(k) + _mp_enc(x) for k, x in v[1])
+    raise ValueError(t)
+
+
+def _gen_tree(rng, depth, root=False, dirty=0.08):
+    """A random document; with probability `dirty` per node something TOML refuses is planted (a null, a byte array, an integer
+    beyond i64, a key that is not a string, a key twice)."""
+    r = rng.random()
+    if depth > 0 and (root or r < 0.45):
+        if root and rng.random() < 0.9 or rng.random() < 0.5:
+            n = rng.choice([0, 1, 2, 3, 5])
+            keys = []
+            for _ in range(n):
+                k = ("s", rng.choice([b"a", b"b", b"k1", b"", b"a b", "\u00e9".encode(), b"x.y"]))
+                q = rng.random()
+                if q < dirty / 2:
+                    k = rng.choice([("u", 1), ("nil",), ("b", True), ("arr", []), ("bin", b"k"), ("bin", b"a"), ("bin", b"\xff"), ("bin", b""), ("f64", 0)])
+                elif q < dirty and keys:
+                    k = rng.choice(keys)
+                keys.append(k)
+            return ("map", [(k, _gen_tree(rng, depth - 1, dirty=dirty)) for k in keys])
+        return ("arr", [_gen_tree(rng, depth - 1, dirty=dirty) for _ in range(rng.choice([0, 1, 2, 4]))])
+    q = rng.random()
+    if q < dirty:
+        return rng.choice([("nil",), ("bin", b"\x00\x01"), ("u", 1 << 63), ("u", (1 << 64) - 1), ("bin", b"")])
+    return rng.choice([("b", True), ("b", False), ("u", 0), ("u", 255), ("u", (1 << 63) - 1), ("i", -1), ("i", -(1 << 63)), ("i", -33),
+                       ("f32", 0x3FC00000), ("f64", 0x7FF8000000000000), ("f64", 0x7FF0000000000000), ("f64", 0), ("s", b"txt"), ("s", b""),
+                       ("s", "\u20ac".encode())])
+
+
+def _classify(res):
+    if res[0] == "ok":
+        return "ok"
+    m = res[1]
+    for needle, cls in (("expected a string", "key"), ("unit value, expected any valid TOML value", "null"), ("u64 value was too large", "bigint"),
+                        ("byte array, expected any valid TOML value", "bytes"), ("invalid utf8", "bytes"), ("duplicate key", "dupkey"),
+                        ("root of TOML output must be a table", "nottable")):
+        if needle in m:
+            return cls
+    return "other: " + m[:80]
+
+
+def accept_correspondence(outcome, tier, seed):
+    """TomlAcceptModel.toml_verdict against the implementation: generated documents, clean and with one or several planted
+    offences, as MessagePack -> TOML; the class of the refusal (the first offence in document order) must agree."""
+    rng = random.Random(seed + 808)
+    docs = []
+    for _ in range(6000 if tier == "thorough" else 1200):
+        docs.append(_mp_enc(_gen_tree(rng, rng.choice([1, 2, 3, 4]), root=rng.random() < 0.85, dirty=rng.choice([0.0, 0.05, 0.15, 0.3]))))
+    docs = list(dict.fromkeys(docs))
+    resps = common.harness_batch([{"id": i, "to": "toml", "calls": [{"input": shared.hx(d), "from": "msgpack", "mode": "slice"}]} for i, d in enumerate(docs)])
+    model = common.run_driver_lines(["TV %dt %s" % (i, shared.hx(d)) for i, d in enumerate(docs)])
+    hist = {}
+    for i, d in enumerate(docs):
+        m = model.get("%dt" % i, "missing")
+        got = _classify(shared.session_result(resps[i]))
+        hist[m] = hist.get(m, 0) + 1
+        if m == "none":
+            continue
+        if got != m:
+            outcome.disagreements.append({"what": "MessagePack -> TOML: the implementation's verdict (%s) differs from TomlAcceptModel.toml_verdict (%s)" % (got, m),
+                                          "case": "TV %s" % shared.hx(d), "input_hex": shared.hx(d)})
+    outcome.evaluations += len(docs)
+    outcome.traces_validated += len(docs)
+    outcome.extra["accept_correspondence"] = {"documents": len(docs), "model_verdicts": hist}
+
+
 def run(outcome, tier, seed):
     outcome.rule = ("history correspondence with target TOML (non-trivial = two or more calls or documents); refusal oracle: each "
                     "request (unrepresentable value at a tree position, non-table root, accepted document read back with tomllib, "
                     "second input, second document)")
     rng = random.Random(seed + 8)
     history.correspondence(outcome, tier, seed, ["toml"], rng, 1200 if tier == "thorough" else 200)
+    accept_correspondence(outcome, tier, seed)
     run_refusal_oracle(outcome, tier, seed)
     run_cli_oracle(outcome)
 
